@@ -333,6 +333,13 @@ CANARIES = [
      "target": "praatio.data_classes.textgrid.Textgrid.eraseRegion",
      "old": "start, end, constants.EraseCollision.TRUNCATE, doShrink", "new": "start, end, constants.EraseCollision.CATEGORICAL, doShrink",
      "config": ["k=1,doShrink=False"]},
+    {"name": "tiernew-drops-entries", "props": ["C13", "C05"], "file": "praatio/data_classes/textgrid_tier.py",
+     "target": "praatio.data_classes.textgrid_tier.TextgridTier.new",
+     "old": "            entries = copy.deepcopy(self.entries)", "new": "            entries = []",
+     "config": ["kind=interval,span=default"]},
+    {"name": "tgnew-shallow", "props": ["C13"], "file": "praatio/data_classes/textgrid.py",
+     "target": "praatio.data_classes.textgrid.Textgrid.new",
+     "old": "        return copy.deepcopy(self)", "new": "        return copy.copy(self)", "config": ["k=1"]},
     {"name": "tgcrop-span", "props": ["C12", "C06"], "file": "praatio/data_classes/textgrid.py",
      "target": "praatio.data_classes.textgrid.Textgrid.crop",
      "old": "            maxT = cropEnd - cropStart\n        else:\n            minT = cropStart\n            maxT = cropEnd\n        newTG",
